@@ -300,3 +300,28 @@ Definition cdpe_pow_si_old := cdpe_pow_si_gen rdpe_mul_old.
 Definition cdpe_set_d (dr di : b64) : cdpe := cdpe_norm (Cdpe (Rdpe dr 0) (Rdpe di 0)).
 Definition cdpe_get_d (c : cdpe) : b64 * b64 := (rdpe_get_d (cre c), rdpe_get_d (cim c)).
 Definition cdpe_get_d_old (c : cdpe) : b64 * b64 := (rdpe_get_d_old (cre c), rdpe_get_d_old (cim c)).
+
+(* ---- the remaining public functions: compositions and structural operations ---------------------- *)
+Definition rdpe_add_d (x : rdpe) (d : b64) : rdpe := rdpe_add x (rdpe_set_d d).
+Definition rdpe_sub_d (x : rdpe) (d : b64) : rdpe := rdpe_sub x (rdpe_set_d d).
+Definition rdpe_add_eq_d (x : rdpe) (d : b64) : rdpe := rdpe_add_eq x (rdpe_set_d d).
+Definition rdpe_sub_eq_d (x : rdpe) (d : b64) : rdpe := rdpe_sub_eq x (rdpe_set_d d).
+Definition cdpe_neg (c : cdpe) : cdpe := Cdpe (rdpe_neg (cre c)) (rdpe_neg (cim c)).
+Definition cdpe_con (c : cdpe) : cdpe := Cdpe (cre c) (rdpe_neg (cim c)).
+Definition cdpe_rot (c : cdpe) : cdpe := Cdpe (rdpe_neg (cim c)) (cre c).
+Definition cdpe_flip (c : cdpe) : cdpe := Cdpe (cim c) (cre c).
+(* rdpe_add_eq has no LONG_MAX pre-checks *)
+Definition cdpe_add_eq (a b : cdpe) : cdpe := Cdpe (rdpe_add_eq (cre a) (cre b)) (rdpe_add_eq (cim a) (cim b)).
+Definition cdpe_sub_eq (a b : cdpe) : cdpe := cdpe_sub a b.
+Definition cdpe_set_2dl (dr : b64) (lr : Z) (di : b64) (li : Z) : cdpe := cdpe_norm (Cdpe (Rdpe dr lr) (Rdpe di li)).
+(* cdpe_mul_x / cdpe_mul_eq_x: the products are rdpe_mul_d *)
+Definition cdpe_mul_x (c : cdpe) (xr xi : b64) : cdpe :=
+  Cdpe (rdpe_sub (rdpe_mul_d (cre c) xr) (rdpe_mul_d (cim c) xi))
+       (rdpe_add (rdpe_mul_d (cim c) xr) (rdpe_mul_d (cre c) xi)).
+(* cdpe_div_eq (rc, c), fixed by fixes/C12_cdpe_div_eq.patch: rc * conj(c)/|c|^2 *)
+Definition cdpe_div_eq (rc c : cdpe) : cdpe := cdpe_div rc c.
+(* as it was: the four products read c instead of rc, i.e. c * conj(c)/|c|^2 whatever rc is *)
+Definition cdpe_div_eq_old (rc c : cdpe) : cdpe := cdpe_div c c.
+Definition cdpe_eq_zero (c : cdpe) : bool := rdpe_eq_zero (cre c) && rdpe_eq_zero (cim c).
+Definition cdpe_eq (a b : cdpe) : bool := rdpe_eq (cre a) (cre b) && rdpe_eq (cim a) (cim b).
+Definition cdpe_ne (a b : cdpe) : bool := rdpe_ne (cre a) (cre b) || rdpe_ne (cim a) (cim b).
